@@ -30,8 +30,8 @@ type BExpr struct {
 	A  []*BExpr
 }
 
-func BConst(b bool) *BExpr   { return &BExpr{Op: "const", K: b} }
-func BVar(n string) *BExpr   { return &BExpr{Op: "var", V: n} }
+func BConst(b bool) *BExpr { return &BExpr{Op: "const", K: b} }
+func BVar(n string) *BExpr { return &BExpr{Op: "var", V: n} }
 func BNot(x *BExpr) *BExpr {
 	if x.Op == "const" {
 		return BConst(!x.K)
@@ -896,7 +896,6 @@ func (e *BExpr) Assign(env map[string]bool) *BExpr {
 	return &BExpr{Op: e.Op, A: a}
 }
 
-
 // BitAtoms lists the derived atoms of l (at any operand depth) whose value is 0 or 1.
 func BitAtoms(l *Lin) []*Atom {
 	var out []*Atom
@@ -924,7 +923,6 @@ func BitAtoms(l *Lin) []*Atom {
 	walk(l)
 	return out
 }
-
 
 // highPart recognises T & ^(2^n-1) (at T's width) and T >> n: both are determined by,
 // and determine, the bits of T from n upwards.
@@ -954,7 +952,6 @@ func highPart(l *Lin) (n int, t *Lin, ok bool) {
 	}
 	return 0, nil, false
 }
-
 
 // LinName is the name a form has inside a proposition.
 func LinName(l *Lin) string { return linName(l) }
